@@ -14,8 +14,8 @@ Slot g_S[2]; Slot g_anon; _Bool g_cons[2]; int g_argid[2]; int g_disp[2]; unsign
 const char g_dtor_tag_QueuedEvent;
 WList *g_rm_list; long g_rm_idx; WList *g_ins_list; long g_ins_idx;
 #endif
-_Bool g_in_processing;
 #ifdef UNIT_QUEUE
 int g_pred[2]; _Bool g_verdict[2];
 #endif
 _Bool g_dirty;
+int g_w11;
